@@ -147,19 +147,27 @@ class LiveClosureMonitor(Monitor):
 
     def on_close_before(self, fw, event):
         mb = event.event
-        mid = mb.market_id
+        recorder = isinstance(mb, dict)
+        mid = mb["id"] if recorder else mb.market_id
+        stream_id = mb.get("_stream_id") if recorder else mb.streaming_unique_id
         market = fw.markets.markets.get(mid)
         now = self.run.now
         # markets that have been closed for more than an hour must be removed by this close event, no others
         expected = sorted(m for m, t in self.closed_at.items() if fw.markets.markets.get(m) is not None and fw.markets.markets[m].closed and now - t > 3600)
-        self.cur = {"mid": mid, "pt": mb.publish_time_epoch, "market": market, "calls": {}, "removed": [], "expected_removed": expected, "was_closed": bool(market is not None and market.closed)}
+        self.cur = {"mid": mid, "pt": None if recorder else mb.publish_time_epoch, "recorder": recorder, "stream_id": stream_id, "market": market, "calls": {}, "removed": [], "expected_removed": expected, "was_closed": bool(market is not None and market.closed)}
+        if recorder:
+            self.res.probes["c20.live.recorder_mode_close"] += 1
+            self.res.nontrivial = True
 
     def on_strategy_closed(self, strategy, market, mb):
         if self.cur is None:
             self.violate(self.P, "C20.callback", "closed-market-callback-outside-closure", strategy=strategy.name)
             return
         self.cur["calls"][strategy.name] = self.cur["calls"].get(strategy.name, 0) + 1
-        if getattr(mb, "status", None) != "CLOSED" or mb.publish_time_epoch != self.cur["pt"]:
+        if self.cur["recorder"]:
+            if not isinstance(mb, dict) or mb.get("marketDefinition", {}).get("status") != "CLOSED" or mb.get("id") != self.cur["mid"]:
+                self.violate(self.P, "C20.callback", "callback-not-given-the-closing-datum", strategy=strategy.name)
+        elif getattr(mb, "status", None) != "CLOSED" or mb.publish_time_epoch != self.cur["pt"]:
             self.violate(self.P, "C20.callback", "callback-not-given-the-closing-book", strategy=strategy.name)
 
     def on_remove_market(self, fw, market, clear):
@@ -180,11 +188,15 @@ class LiveClosureMonitor(Monitor):
             return
         mid = c["mid"]
         pr = self.res.probes
+        by_name = {a.name: a for a in self.run.agents}
         for ss in self.run.scenario["strategies"]:
             got = c["calls"].get(ss["name"], 0)
-            if got != 1:
-                site = ("empty-filter-strategy-" if ss.get("empty_filter") else "") + ("callback-missing" if got == 0 else "callback-twice")
-                self.violate(self.P, "C20.callback", site, strategy=ss["name"], got=got, market=mid)
+            agent = by_name.get(ss["name"])
+            subscribed = bool(ss.get("empty_filter")) or (agent is not None and c["stream_id"] in agent.stream_ids)
+            want = 1 if subscribed else 0
+            if got != want:
+                site = ("empty-filter-strategy-" if ss.get("empty_filter") else "recorder-" if c["recorder"] else "") + ("callback-missing" if got < want else "callback-twice" if want else "callback-for-unsubscribed-strategy")
+                self.violate(self.P, "C20.callback", site, strategy=ss["name"], got=got, want=want, market=mid)
             if ss.get("empty_filter"):
                 pr["c20.live.empty_filter_strategy_close"] += 1
                 self.res.nontrivial = True
@@ -209,6 +221,11 @@ class LiveClosureMonitor(Monitor):
             self.res.nontrivial = True
 
     def on_main_event(self, ev):
+        if ev.EVENT_TYPE.name == "RAW_DATA":
+            for datum in ev.event[3]:
+                if datum.get("id") in self.closed_at and not ("marketDefinition" in datum and datum["marketDefinition"]["status"] == "CLOSED"):
+                    # data after close re-opens the market in recorder mode too
+                    self.closed_at.pop(datum["id"], None)
         if ev.EVENT_TYPE.name == "MARKET_BOOK":
             for mb in ev.event:
                 if mb.status != "CLOSED" and mb.market_id in self.closed_at:
